@@ -77,6 +77,7 @@ SubsErr(subs, R, E, k) ==
 ModelAfter(rec) ==
     LET D == DsOfJson(rec.pre) IN
     CASE rec.op = "construct"       -> D
+      [] rec.op = "scribble"        -> D      \* the caller modified its own copies: no transition of the dataset
       [] rec.op = "remove_elements" -> RemoveElementsF(D, ToSet(rec.S))
       [] rec.op = "remove_rate"     -> RemoveRateF(D, rec.p, rec.q)
       [] rec.op = "remove_empty"    -> RemoveEmptyF(D)
